@@ -2562,7 +2562,12 @@ impl Melda {
         let new_order = new_descriptor.get_order().as_ref().unwrap();
         let patch = make_diff_patch(&winning_order, new_order).expect("failed_diffing");
         if patch.is_empty() {
-            Ok(None)
+            if rt.get_winner().expect("no_winner").is_deleted() {
+                // The array was deleted and is now submitted again (empty): it must exist again
+                Ok(Some(new_descriptor.to_json_object()))
+            } else {
+                Ok(None)
+            }
         } else {
             Ok(Some(
                 ArrayDescriptor::new_from_patch(patch).to_json_object(),
